@@ -1522,7 +1522,9 @@ def check_C10(run, replay=None):
 # ---- C01: compile matrix, naming differential --------------------------------
 
 def check_C01(run, replay=None):
+    regen_translator(run, "holes")
     proof_ok = run.proof_side()
+    holes_txt = open(os.path.join(ROOT, "coq", "theories", "Gen", "HoleSites.txt")).read()
     cases, impl, model, meta = run.run_vh(["-cases", replay] if replay else None, timeout=6000)
     dline = {}
     for c in cases:
@@ -1573,6 +1575,12 @@ def check_C01(run, replay=None):
                 "Every package the generator reports success for is judged with go/parser, gofmt idempotence (go/format), an import check "
                 "(standard library only) and `go build`. generator.PublicFieldName is compared with its Coq model on seeded ASCII names.",
         "cells": n_cells, "verdicts": verdicts, "matrix_failures": len(bad),
+        "hole_inventory": {k: len(re.findall(r"\[%s\]" % k, holes_txt)) for k in ("Code", "Ident", "Str", "Raw", "Rune", "LineComment", "BlockComment")},
+        "hole_rule": "REGENERATED OBLIGATION: the translator `vh holes` (text/template/parse over /repo/generator/*.gotmpl + a Go lexer state machine over "
+                     "the literal text) lists every action that writes into the generated source with its lexical context and last function; "
+                     "C01_holes_classified / C01_templates_balanced are closed by computation; C01_comment_inert, C01_name_hole_inert are the theorems "
+                     "about what may be written there. `N cmt` cases run the generator's own comment function (through the StructureField template) "
+                     "against the model and go/scanner; `N lex` cases run the translator's lexer against the model's.",
         "input_distribution": {k: v for k, v in meta.items() if k != "packages_bad"},
         "trusted_base": TRUSTED_COMMON + [
             "PARTIAL: type-correctness of the generated package is NOT a theorem; it is decided per matrix cell by the Go toolchain (go build) "
@@ -1582,8 +1590,25 @@ def check_C01(run, replay=None):
             "the naming model covers ASCII names (unicode.IsLetter/IsUpper/IsDigit, strings.Title on bytes < 128); Title()/x-text casing is not modelled"],
     })
     if not proof_ok:
-        run.proof_failed()
+        run.proof_failed({"unclassified_holes": unclassified_holes()})
     return run.finish()
+
+
+def unclassified_holes():
+    """the holes of Gen/HoleSites.v that Model/Holes.v hole_ok refuses (for the replay file of a broken C01_holes_classified)"""
+    q = os.path.join(BUILD, "holes_query.v")
+    with open(q, "w") as f:
+        f.write("From Coq Require Import String List. Import ListNotations.\n"
+                "From Goag Require Import Gen.HoleSites Model.Holes.\n"
+                "Eval vm_compute in filter (fun h => negb (hole_ok h)) observed_holes.\n"
+                "Eval vm_compute in filter (fun u => negb (in_s u unbalanced_reviewed)) observed_unbalanced.\n")
+    rc, out = sh(["timeout", "300", "coqc", "-Q", os.path.join(COQ, "theories"), "Goag", q], cwd=BUILD)
+    for ext in (".vo", ".vok", ".vos", ".glob"):
+        try:
+            os.remove(q[:-2] + ext)
+        except OSError:
+            pass
+    return re.sub(r"\s+", " ", out)[:3000] if rc == 0 else "query failed: " + out[-500:]
 
 
 # ---- C14: no panic, exactly one response ---------------------------------------
@@ -1876,7 +1901,7 @@ def setup():
     if not ok:
         print(out)
         return 1
-    for tr in ("mapsites", "panicsites", "access"):
+    for tr in ("mapsites", "panicsites", "access", "holes"):
         rc, out = sh([os.path.join(BUILD, "bin", "vh"), tr], env=GOENV, cwd=HARNESS, timeout=900)
         print("translator %s: %s" % (tr, out.strip().split("\n")[-1] if out.strip() else rc))
     if not os.path.exists(os.path.join(COQ, "Makefile")):
